@@ -252,6 +252,41 @@ def r18_1(ck):
         ck.require(ok, 'R18.1', gd, a,
                    'a queried value is kept unless it is absent (None)',
                    'a queried value is filtered by %s' % sorted(extra), a)
+        ck.require(any(x[0] == 'isnot' and x[2] == 'None' for x in g),
+                   'R18.1', gd, a,
+                   'a path that is absent at a time (get_in gives None) is '
+                   'left out of that row',
+                   'every queried path is put into every row, found or '
+                   'not: a variable that did not exist at a time (before '
+                   'an agent was born, after it was removed) appears there '
+                   'with the value None', a)
+    # the values of a row are collected somewhere, and under the "found"
+    # test: appends (checked above) or a comprehension with that filter
+    comps = [c for c in ast.walk(gd.node) if isinstance(c, ast.ListComp)
+             and any(A.call_name(x) == 'get_in' for x in A.calls_in(c))]
+    for h in [x for x in ck.repo.functions if x.cls == gd.cls and
+              x.name.startswith('_') and any(
+                  A.call_name(c) == x.name for c in A.calls_in(gd.node))]:
+        comps += [c for c in ast.walk(h.node) if isinstance(c, ast.ListComp)
+                  and any(A.call_name(x) == 'get_in'
+                          for x in A.calls_in(c))]
+        apps = apps + [c for c in A.calls_in(h.node, 'append')]
+    for c in comps:
+        found = any(isinstance(t, ast.Compare) and isinstance(
+            t.ops[0], ast.IsNot) and isinstance(
+            t.comparators[0], ast.Constant) and
+            t.comparators[0].value is None
+            for g2 in c.generators for t in g2.ifs)
+        ck.require(found, 'R18.1', gd, c,
+                   'a path that is absent at a time (get_in gives None) is '
+                   'left out of that row',
+                   'every queried path is put into every row, found or '
+                   'not: a variable that did not exist at a time appears '
+                   'there with the value None', c)
+    ck.require(bool(apps) or bool(comps), 'R18.1', gd, gd.node.name,
+               'the queried values of a row are collected',
+               'get_data(query) no longer collects the values found at the '
+               'queried paths: every row of a queried history is empty')
     # every saved time gets a row, every queried path is looked up (loops
     # or comprehensions, here or in a private helper called from here)
     q = A.params_of(gd.node)[1]
